@@ -46,6 +46,21 @@ pub fn restrict(set: &DataSet, version: u8) -> DataSet {
     set.iter().filter(|(k, _)| k.min_version() <= version).map(|(k, v)| (k.clone(), v.clone())).collect()
 }
 
+/// Like `to_payload`, but an origin whose max length equals its prefix length
+/// is spelled without an explicit max length when `implicit` says so (what a
+/// source gets from `MaxLenPrefix::from(prefix)`, from parsing "a.b.c.d/n" or
+/// from a SLURM assertion without maxPrefixLength). It is the same item.
+pub fn to_payload_spelled(key: &Key, providers: &[u32], implicit: bool) -> Payload {
+    if let Key::Origin { v6, addr, plen, maxlen, asn } = key {
+        if implicit && plen == maxlen {
+            let prefix = if *v6 { Prefix::new_v6(Ipv6Addr::from(*addr), *plen) } else { Prefix::new_v4(Ipv4Addr::from(*addr as u32), *plen) }
+                .expect("model prefixes are canonical");
+            return Payload::origin(MaxLenPrefix::new(prefix, None).expect("no max-len"), Asn::from_u32(*asn));
+        }
+    }
+    to_payload(key, providers)
+}
+
 pub fn to_payload(key: &Key, providers: &[u32]) -> Payload {
     match key {
         Key::Origin { v6, addr, plen, maxlen, asn } => {
@@ -333,6 +348,9 @@ pub struct SourceInner {
     /// `State::inc()` (what a real source uses to move to its next serial)
     /// disagreed with serial + 1 mod 2^32 in the same session.
     pub state_inc_broken: Option<String>,
+    /// Origins whose max length equals their prefix length are handed to the
+    /// server without an explicit max length, one time in two.
+    pub implicit_max_len: bool,
 }
 
 pub struct VersionedSource {
@@ -372,6 +390,7 @@ impl VersionedSource {
                 next_clone: 0,
                 used_sessions: vec![session],
                 state_inc_broken: None,
+                implicit_max_len: false,
             })),
             ctx: ctx.clone(),
             clone_id: 0,
@@ -497,7 +516,8 @@ impl PayloadSource for VersionedSource {
             ((i.session, i.serial), units, i.shuffle)
         };
         let items = Arc::new(self.order(units, shuffle));
-        let payloads = items.iter().map(|(k, v, _)| to_payload(k, v)).collect();
+        let implicit = self.inner.lock().unwrap().implicit_max_len;
+        let payloads = items.iter().map(|(k, v, _)| to_payload_spelled(k, v, implicit && self.ctx.chance(1, 2))).collect();
         let mut i = self.inner.lock().unwrap();
         i.calls.push(SourceCall { clone_id: self.clone_id, kind: CallKind::Full(key), items: items.clone() });
         self.ctx.progress();
@@ -572,9 +592,10 @@ impl PayloadSource for VersionedSource {
                 }
                 let items: Vec<(Key, Vec<u32>, bool)> = steps.into_iter().flat_map(|units| self.order(units, shuffle)).collect();
                 let items = Arc::new(items);
+                let implicit = self.inner.lock().unwrap().implicit_max_len;
                 let payloads = items
                     .iter()
-                    .map(|(k, v, ann)| (to_payload(k, v), if *ann { Action::Announce } else { Action::Withdraw }))
+                    .map(|(k, v, ann)| (to_payload_spelled(k, v, implicit && self.ctx.chance(1, 2)), if *ann { Action::Announce } else { Action::Withdraw }))
                     .collect();
                 let mut i = self.inner.lock().unwrap();
                 i.calls.push(SourceCall { clone_id: self.clone_id, kind: CallKind::Diff(from, Some(key)), items: items.clone() });
